@@ -466,6 +466,10 @@ def run(ctx):
                 some_edges += tg
         calls = fn_b.call_blocks(JC.rsplit("::", 1)[0] + "::signed_multiple_of_ast")
         rets = [bi for bi in fn_b.live_blocks() if fn_b.blocks[bi]["term"]["t"] == "return"]
+        if not some_edges and not calls and any(cb_.call_blocks(JC.rsplit("::", 1)[0] + "::signed_multiple_of_ast") for cb_ in
+                                                 (P.bodies.get(c_) or getattr(P, "hidden", {}).get(c_) for c_ in P.closures_of(fn_b.id, include_hidden=True)) if cb_ is not None):
+            ctx.info("C08-R6", "%s: multipleOf handled inside a closure (Option::map form) — not judged" % nm)
+            continue
         if not some_edges or not calls:
             ctx.violation("C08-R6", "multipleOf:%s:anchor" % nm, "%s no longer tests `multiple_of` / calls signed_multiple_of_ast: multipleOf is not enforced" % fn_b.id, site=fn_b.where())
             continue
@@ -474,6 +478,8 @@ def run(ctx):
             cut = L.guard_edges(fn_b, lambda e: e[0] == "bin" and e[1] == "Eq" and "coef" in repr(e) and any(x[0] == "const" and x[1] == 1 for x in e[2:4]), True)
         bypass = []
         for (sb, t) in some_edges:
+            if sb not in fn_b.reachable(0, cut_blocks=calls):
+                continue   # the tested Option is itself produced after the call (`multiple_of.map(|d| signed_multiple_of_ast(..))`)
             r = fn_b.reachable(t, cut_blocks=calls, cut_edges=cut)
             bypass += [x for x in rets if x in r]
         ctx.check(not bypass, "C08-R6", "multipleOf:%s:never-dropped" % nm,
